@@ -208,3 +208,52 @@ package jsonpatch
 //@   modifies nothing
 //@   ensures[C01,C06] nil-is-null: n == nil || n.raw == nil ==> result
 //@   ensures[C01,C06] null-iff: n != nil && n.raw != nil ==> (result <==> kind(val(*n.raw)) == KNull)
+
+// ---- operations as decoded (C11) ----
+
+//@ func (Operation).Kind
+//@   requires op: opOK(o)
+//@   ensures[C11] kind: result == opKind(o)
+
+//@ func (Operation).Path
+//@   requires op: opOK(o)
+//@   ensures[C11] ok-iff: (err == nil) <==> okStr(o, "path")
+//@   ensures[C11] value: err == nil && kind(val(*o["path"])) == KStr ==> result.0 == strval(val(*o["path"]))
+//@   ensures[C08] attrs: !isTestFailed(err) && !isCopyLimit(err) && !isInvalidIndex(err)
+
+//@ func (Operation).From
+//@   requires op: opOK(o)
+//@   ensures[C11] ok-iff: (err == nil) <==> okStr(o, "from")
+//@   ensures[C11] value: err == nil && kind(val(*o["from"])) == KStr ==> result.0 == strval(val(*o["from"]))
+//@   ensures[C08] attrs: !isTestFailed(err) && !isCopyLimit(err) && !isInvalidIndex(err)
+
+//@ func (Operation).ValueInterface
+//@   requires op: opOK(o)
+//@   ensures[C11] ok-iff: (err == nil) <==> "value" in o
+//@   ensures[C11] null: "value" in o && o["value"] == nil ==> result.0 == nil
+//@   ensures[C11] value: "value" in o && o["value"] != nil ==> iv(result.0) == val(*o["value"])
+
+//@ func (Operation).value
+//@   requires op: opOK(o)
+//@   ensures[C01] absent: !("value" in o) ==> result == nil
+//@   ensures[C01,C09] present: "value" in o ==> result != nil && fresh(result) && result.which == eRaw && result.doc == nil && result.ary == nil && result.raw != nil && wf(*result.raw) && nows(*result.raw) && allocated(result.raw) && allocated(*result.raw)
+//@   ensures[C01] null: "value" in o && o["value"] == nil ==> kind(val(*result.raw)) == KNull && fresh(result.raw)
+//@   ensures[C01,C09] shares-patch-bytes: "value" in o && o["value"] != nil ==> result.raw == o["value"]
+
+//@ func validateOperation
+//@   requires op: opOK(op)
+//@   ensures[C11] iff: (err == nil) <==> validOp(op)
+
+//@ func validatePatch
+//@   requires patch: patchOK(p)
+//@   ensures[C11] iff: (err == nil) <==> (forall j int :: 0 <= j && j < len(p) ==> validOp(p[j]))
+//@   loop 1
+//@   invariant valid-so-far: forall j int :: 0 <= j && j <= rangeindex ==> validOp(p[j])
+
+//@ func DecodePatch
+//@   ensures[C11,C08] nil-on-error: err != nil ==> result.0 == nil
+//@   ensures[C11,C16] rejects-ill-formed: !wf(buf) ==> err != nil
+//@   ensures[C04,C11] patch-ok: err == nil ==> patchOK(result.0)
+//@   ensures[C11] valid-ops: err == nil ==> forall j int :: 0 <= j && j < len(result.0) ==> validOp(result.0[j])
+//@   ensures[C11] accepts-iff: wf(buf) && kind(val(buf)) == KArr ==> ((err == nil) <==> (forall i int :: 0 <= i && i < jlen(val(buf)) ==> opShape(elem(val(buf), i))))
+//@   ensures[C11] non-array: wf(buf) && kind(val(buf)) != KArr && kind(val(buf)) != KNull ==> err != nil
